@@ -1660,6 +1660,12 @@ def _hoist_walrus(tree):
                             owner, attr, t = t, 'left', t.left
                         elif isinstance(t, ast.BoolOp):
                             owner, attr, t = t.values, 0, t.values[0]
+                        elif isinstance(t, ast.Call) and t.args and \
+                                _simple(t.func) and not isinstance(
+                                t.args[0], ast.Starred):
+                            # f(x := E, ...): the callee is a plain name,
+                            # the first argument is evaluated first
+                            owner, attr, t = t.args, 0, t.args[0]
                         else:
                             break
                     if isinstance(t, ast.NamedExpr) and isinstance(
